@@ -480,3 +480,17 @@ func TestD26_MissingListParam(t *testing.T) {
 		t.Fatalf("missing tags[] treated as present: errs=%v d=%#v", errs, d)
 	}
 }
+
+// D24: an empty input map names fields by the schema key, a non-empty one by the zog tag
+func TestD24_EmptyProviderKey(t *testing.T) {
+	type D struct {
+		B int `zog:"z_b"`
+	}
+	s := z.Struct(z.Schema{"b": z.Int().Required()})
+	var d D
+	e1 := s.Parse(map[string]any{}, &d)
+	e2 := s.Parse(map[string]any{"x": 1}, &d)
+	if len(e1["z_b"]) != 1 || len(e2["z_b"]) != 1 {
+		t.Fatalf("paths differ: empty map %v, non-empty map %v", e1, e2)
+	}
+}
